@@ -492,6 +492,9 @@ def align_variable_names_with_convention(
                     renamings[refnode].add(substitute)
             for node in parsing.iter_assignments(partial_tree):
                 name = node.id
+                if any(core.walk(partial_tree.args, ast.arg(arg=name))):
+                    # An argument that is assigned to. Its name is part of the signature.
+                    continue
                 substitute = style.rename_variable(name, private=False, static=False)
                 renamings[node].add(substitute)
                 for refnode in _get_uses_of(node, partial_tree, source):
